@@ -399,7 +399,7 @@ class Parser:
         if self.py_version >= min_version:
             return node
         else:
-            raise SyntaxError(f"{error_msg} is only supported in Python {min_version} and above.")
+            raise self.make_syntax_error(f"{error_msg} is only supported in Python {min_version} and above.")
 
     def raise_indentation_error(self, msg: str) -> None:
         """Raise an indentation error."""
